@@ -249,10 +249,23 @@ pub fn gen_opts(rng: &mut Rng, p: &Profile, multipass: bool) -> Opts {
                 v.push(cur);
                 cur = cur.saturating_mul(rng.range(2, 5) as u32);
             }
-            if !multipass && rng.chance(1, 6) {
-                // the single-pass path documents that zero entries are ignored
+            let _ = multipass;
+            if rng.chance(1, 6) {
+                // zero entries are ignored
                 let at = rng.below(v.len() as u64 + 1) as usize;
                 v.insert(at, 0);
+            }
+            if rng.chance(1, 6) {
+                // repeated size
+                let d = v[rng.below(v.len() as u64) as usize];
+                v.push(d);
+            }
+            if rng.chance(1, 5) {
+                // any order
+                for i in (1..v.len()).rev() {
+                    let j = rng.below(i as u64 + 1) as usize;
+                    v.swap(i, j);
+                }
             }
             o.manual_zooms = Some(v);
         }
